@@ -3,10 +3,12 @@
 package checks
 
 import (
+	"context"
 	"crypto/sha256"
 	"encoding/hex"
 	"encoding/json"
 	"fmt"
+	"github.com/compose-spec/compose-go/v2/types"
 	"os"
 	"os/exec"
 	"path/filepath"
@@ -38,7 +40,7 @@ type c02Input struct {
 func c02Hash(in c02Input) string {
 	p, err := safeLoad(in.Dir, in.Env, in.Files)
 	if err != nil {
-		return "error: " + err.Error()
+		return "error: " + err.Error() + " | " + c02Model(in)
 	}
 	y, e1 := p.MarshalYAML()
 	j, e2 := p.MarshalJSON()
@@ -49,7 +51,35 @@ func c02Hash(in c02Input) string {
 	h.Write([]byte(projDump(p)))
 	h.Write(y)
 	h.Write(j)
+	h.Write([]byte(c02Model(in)))
 	return "ok:" + hex.EncodeToString(h.Sum(nil))[:20]
+}
+
+// c02Model is the outcome of LoadModelWithContext on the same input (the dictionary, keys sorted by the JSON encoder).
+func c02Model(in c02Input) (out string) {
+	defer func() {
+		if r := recover(); r != nil {
+			out = fmt.Sprintf("model-panic: %v", r)
+		}
+	}()
+	var cfs []types.ConfigFile
+	for _, d := range in.Files {
+		cf := types.ConfigFile{Filename: d.Name}
+		if d.Content != "" || d.InMemory {
+			cf.Content = []byte(d.Content)
+		}
+		cfs = append(cfs, cf)
+	}
+	env := types.Mapping{}
+	for k, v := range in.Env {
+		env[k] = v
+	}
+	m, err := loader.LoadModelWithContext(context.Background(), types.ConfigDetails{WorkingDir: in.Dir, Environment: env, ConfigFiles: cfs}, func(o *loader.Options) { o.SetProjectName("proj", true) })
+	if err != nil {
+		return "model-error: " + err.Error()
+	}
+	b, _ := json.Marshal(m)
+	return string(b)
 }
 
 func c02Worker(args []string) int {
@@ -174,6 +204,17 @@ func C02(c *core.Ctx) {
 	}
 	pool = append(pool, c02Input{Name: "envfiles:shared-after-own", Dir: wd, Env: map[string]string{}, Files: []namedDoc{{Name: filepath.Join(wd, "e.yaml"), InMemory: true,
 		Content: "services:\n  api: {image: i, env_file: [api.env, shared.env]}\n  worker: {image: i, env_file: [worker.env, shared.env]}\n  cron: {image: i, env_file: [cron.env, shared.env], label_file: [shared.env]}\n  plain: {image: i, env_file: [shared.env]}\n"}}})
+	// a short depends_on list inherited from a base of the same file and refined entry-wise, each entry differently
+	pool = append(pool, c02Input{Name: "extends:short-list-refined", Dir: wd, Env: map[string]string{}, Files: []namedDoc{{Name: filepath.Join(wd, "x.yaml"), InMemory: true,
+		Content: "services:\n  base: {image: i, depends_on: [db, cache, queue]}\n  web:\n    extends: {service: base}\n    depends_on:\n      db: {condition: service_healthy}\n      cache: {condition: service_completed_successfully, restart: true}\n      queue: {required: false}\n  worker:\n    extends: {service: base}\n    depends_on: {queue: {condition: service_healthy, restart: true}}\n  db: {image: i}\n  cache: {image: i}\n  queue: {image: i}\n"}}})
+	// the same in three files: a list added by the second file, refined by the third
+	pool = append(pool, c02Input{Name: "merge:short-list-refined", Dir: wd, Env: map[string]string{}, Files: []namedDoc{
+		{Name: filepath.Join(wd, "r1.yaml"), InMemory: true, Content: "services:\n  web: {image: i, depends_on: [db]}\n  db: {image: i}\n  cache: {image: i}\n  queue: {image: i}\n"},
+		{Name: filepath.Join(wd, "r2.yaml"), InMemory: true, Content: "services:\n  web: {depends_on: [cache, queue]}\n"},
+		{Name: filepath.Join(wd, "r3.yaml"), InMemory: true, Content: "services:\n  web:\n    depends_on:\n      cache: {condition: service_healthy}\n      queue: {condition: service_completed_successfully, required: false}\n"}}})
+	// `version:` alone (an empty model every time) and `version:` next to content, under one file name loaded again and again
+	pool = append(pool, c02Input{Name: "version:only", Dir: wd, Env: map[string]string{}, Files: []namedDoc{{Name: filepath.Join(wd, "v-only.yaml"), InMemory: true, Content: "version: \"3.8\"\n"}}})
+	pool = append(pool, c02Input{Name: "version:with-content", Dir: wd, Env: map[string]string{}, Files: []namedDoc{{Name: filepath.Join(wd, "v-content.yaml"), InMemory: true, Content: "version: \"3.8\"\nservices:\n  a: {image: i}\n"}}})
 	c.Set("input_pool", len(pool))
 
 	type ev struct {
